@@ -44,13 +44,25 @@ def load_harnesses():
     return out
 
 
-def all_modules():
+def all_modules(selected=None):
+    """modules to append: those of the selected harnesses, the modules they declare in "needs", and the
+    always-present helper module `datatype` (a half-written module of another unit must not break the build)"""
     kd = os.path.join(VERIF, "kani")
-    out = {}
+    allm = {}
     for fn in sorted(os.listdir(kd)) if os.path.isdir(kd) else []:
         if fn.endswith(".json"):
-            out[fn[:-5]] = json.load(open(os.path.join(kd, fn)))["append_to"]
-    return out
+            allm[fn[:-5]] = json.load(open(os.path.join(kd, fn)))
+    if selected is None:
+        return {m: j["append_to"] for m, j in allm.items()}
+    want = set(selected) | {"datatype"}
+    todo = list(want)
+    while todo:
+        m = todo.pop()
+        for n in allm.get(m, {}).get("needs", []):
+            if n not in want:
+                want.add(n)
+                todo.append(n)
+    return {m: allm[m]["append_to"] for m in want if m in allm}
 
 
 def make_overlay(modules=None, extra_tests=None, kani=True):
@@ -63,8 +75,12 @@ def make_overlay(modules=None, extra_tests=None, kani=True):
     mods = modules or {}
     for m, append_to in mods.items():
         src = open(os.path.join(VERIF, "kani", f"{m}.rs")).read()
+        mj = json.load(open(os.path.join(VERIF, "kani", f"{m}.json")))
+        feats = {h.get("features", "") for h in mj.get("harnesses", [])}
+        gate = mj.get("cfg_feature") or (feats.pop() if len(feats) == 1 and "" not in feats else "")
+        cfg = f'all(kani, feature = "{gate}")' if gate else "kani"
         with open(os.path.join(root, append_to), "a") as f:
-            f.write(f"\n#[cfg(kani)]\n#[allow(unused, clippy::all)]\npub(crate) mod verif_kani_{m} {{\n    use super::*;\n{src}\n}}\n")
+            f.write(f"\n#[cfg({cfg})]\n#[allow(unused, clippy::all)]\npub(crate) mod verif_kani_{m} {{\n    use super::*;\n{src}\n}}\n")
     for append_to, text in (extra_tests or []):
         with open(os.path.join(root, append_to), "a") as f:
             f.write("\n" + text + "\n")
@@ -172,7 +188,7 @@ def run_for(prop, tier):
     hs = [h for h in load_harnesses() if prop in h["props"] and (tier == "thorough" or h.get("tier", "quick") == "quick")]
     if not hs:
         return []
-    root = make_overlay(all_modules())
+    root = make_overlay(all_modules({h["module"] for h in hs}))
     results = []
     groups = {}
     for h in hs:
@@ -226,7 +242,7 @@ def replay(prop, path):
         test = d["playback_test"]
         m = re.search(r"fn (kani_concrete_playback_\w+)", test)
         tname = m.group(1)
-        root = make_overlay(all_modules())
+        root = make_overlay(all_modules({d["module"]}))
         # put the playback test inside the harness module
         p = os.path.join(root, d["append_to"])
         txt = open(p).read()
